@@ -3,7 +3,7 @@
     sni_proxy.go, proxy/ws_handler.go).
     This file contains only statements, [exact], and [Print Assumptions]. *)
 From Coq Require Import String List NArith Bool.
-From Fabio Require Import Lib.Outcome Lib.Bytes Model.ClientHello Model.BufioR Model.Tunnel Proofs.Tunnel.
+From Fabio Require Import Lib.Outcome Lib.Bytes Model.ClientHello Model.BufioR Model.Tunnel Model.WsHijack Proofs.Tunnel Proofs.WsHijack.
 Import ListNotations.
 
 (* The copy loop: for every segmentation of the source (every chunking of the reads) the
@@ -413,3 +413,110 @@ Theorem C09_model_client_sees_eof : forall up reply cw_in cerr cwait ce ut ue,
   e_cl_eof (tunnel_expect up reply cw_in cerr cwait ce ut ue) = Some true.
 Proof. exact expect_eof. Qed.
 Print Assumptions C09_model_client_sees_eof.
+
+(* websocket, the client does not wait for the 101 (Model/WsHijack.v): net/http's server reads the
+   connection through a 4096-byte bufio.Reader; what the client sent in the segment(s) of its
+   upgrade request sits in that reader when the handler hijacks the connection (up to 4096 bytes
+   minus what the last fill held of the request, plus the one byte of the server's background
+   read), and ws_handler.go forwards it with io.CopyN(out, brw.Reader, Buffered()) before the
+   relay copies the raw connection.
+   The CopyN forwards EVERYTHING the reader holds, whatever its length (not only what fits some
+   scratch buffer), reads nothing from the connection and leaves the reader empty. *)
+Theorem C09_ws_buffered_bytes_all_forwarded : forall b, ws_copy_buffered b = Ok (b_buf b, 0%N, set_buf b []).
+Proof. exact ws_copy_buffered_all. Qed.
+Print Assumptions C09_ws_buffered_bytes_all_forwarded.
+
+(* Reading the request head through the reader (line by line, one Read of the connection per
+   fill): for every segmentation of a stream whose head - the lines up to the first blank one
+   after the request line, defined on the flat stream - fits the reader, exactly the head is
+   consumed and what follows stays pending, in order ... *)
+Theorem C09_ws_request_head_any_segmentation : forall segs h rest,
+  flat_head (concat segs) = Some (h, rest) -> (length h <= http_buf_size)%nat ->
+  exists b1, http_read_head (new_reader http_buf_size segs) = Ok (Some (h, b1)) /\ pending b1 = rest.
+Proof. exact http_read_head_total. Qed.
+Print Assumptions C09_ws_request_head_any_segmentation.
+
+(* ... and conversely whatever the reader hands out as the head is the head of the flat stream. *)
+Theorem C09_ws_request_head_is_flat_head : forall cap segs h b1,
+  http_read_head (new_reader cap segs) = Ok (Some (h, b1)) -> flat_head (concat segs) = Some (h, pending b1).
+Proof. exact http_read_head_flat. Qed.
+Print Assumptions C09_ws_request_head_is_flat_head.
+
+(* The upstream's stream.  For every way the client's bytes are cut into segments and sent before
+   ([early]) or after ([late]) the 101, whatever part of them the server has buffered at Hijack
+   time, with or without the background byte: the upstream receives, after the request, exactly
+   what follows the request head in the client's stream - from its very first byte, every byte
+   once, in order. *)
+Theorem C09_ws_early_bytes_any_segmentation : forall early late bg h rest,
+  flat_head (concat early) = Some (h, rest) -> (length h <= http_buf_size)%nat ->
+  exists fw c, ws_early_upstream early late bg = Ok (Some (h, fw, c)) /\ fw ++ c = rest ++ concat late.
+Proof. exact ws_early_upstream_stream. Qed.
+Print Assumptions C09_ws_early_bytes_any_segmentation.
+
+(* Without any assumption: whenever the model yields a tunnel, the head it read is the flat
+   stream's head and head ++ forwarded ++ relayed is the client's stream: nothing lost, duplicated
+   or reordered. *)
+Theorem C09_ws_early_bytes_sound : forall early late bg h fw c,
+  ws_early_upstream early late bg = Ok (Some (h, fw, c)) ->
+  flat_head (concat early) = Some (h, skipn (length h) (concat early)) /\ h ++ fw ++ c = concat (early ++ late).
+Proof. exact ws_early_upstream_sound. Qed.
+Print Assumptions C09_ws_early_bytes_sound.
+
+(* Err 77 (fuel) is unreachable in ReadSlice, the head loop and the whole early path. *)
+Theorem C09_read_slice_never_out_of_fuel : forall b, read_slice b <> Err 77%N.
+Proof. exact read_slice_never_out_of_fuel. Qed.
+Print Assumptions C09_read_slice_never_out_of_fuel.
+
+Theorem C09_http_read_head_never_out_of_fuel : forall b, http_read_head b <> Err 77%N.
+Proof. exact http_read_head_never_out_of_fuel. Qed.
+Print Assumptions C09_http_read_head_never_out_of_fuel.
+
+Theorem C09_ws_early_upstream_never_out_of_fuel : forall early late bg, ws_early_upstream early late bg <> Err 77%N.
+Proof. exact ws_early_upstream_never_out_of_fuel. Qed.
+Print Assumptions C09_ws_early_upstream_never_out_of_fuel.
+
+(* Non-vacuity: 3000 bytes in the request's segment - all 3000 (3001 with the background byte) are
+   in the reader at Hijack time and reach the upstream, followed by the rest; a request cut after
+   7 bytes with 5000 more bytes in its second segment fills the reader to its 4096 bytes. *)
+Theorem C09_ws_early_bytes_nonvacuous :
+  flat_head (wit_ws_req ++ symseq 0 3000) = Some (wit_ws_req, symseq 0 3000) /\
+  ws_buffered_at_hijack [wit_ws_req ++ symseq 0 3000; symseq 3000 10] false = Ok (Some 3000%nat) /\
+  ws_buffered_at_hijack [wit_ws_req ++ symseq 0 3000; symseq 3000 10] true = Ok (Some 3001%nat) /\
+  ws_early_upstream [wit_ws_req ++ symseq 0 3000; symseq 3000 10] [symseq 3010 5] false
+    = Ok (Some (wit_ws_req, symseq 0 3000, symseq 3000 15)) /\
+  ws_early_upstream [wit_ws_req ++ symseq 0 3000; symseq 3000 10] [symseq 3010 5] true
+    = Ok (Some (wit_ws_req, symseq 0 3001, symseq 3001 14)) /\
+  ws_buffered_at_hijack [firstn 7 wit_ws_req; skipn 7 wit_ws_req ++ symseq 0 5000] false
+    = Ok (Some (4096 - length wit_ws_req)%nat) /\
+  (exists fw c, ws_early_upstream [firstn 7 wit_ws_req; skipn 7 wit_ws_req ++ symseq 0 5000] [symseq 5000 9] true
+    = Ok (Some (wit_ws_req, fw, c)) /\ fw ++ c = symseq 0 5009).
+Proof. exact ws_early_upstream_nonvacuous. Qed.
+Print Assumptions C09_ws_early_bytes_nonvacuous.
+
+(* The link for the scenario with early bytes (interval semantics of the correspondence check):
+   every observation within the model's forced outcome satisfies spec_b on the client's WHOLE
+   stream.  Same named exclusions as C09_scenario_meets_spec; [e_conn]: the server did read a
+   request. *)
+Theorem C09_ws_early_scenario_meets_spec : forall req rsplit segs nearly bg fin cw_in cwait ce ut reply rseg1 whead ue e o_up o_cl,
+  scenario_expect_ws_early req rsplit segs nearly bg fin cw_in cwait ce ut reply rseg1 whead ue = Ok e ->
+  e_conn e = true ->
+  region_upstream_half_close (concat segs) cw_in ut ue = false ->
+  ws_head_first KWs ut whead = true ->
+  within o_up (e_up e) (e_up_lo e) (nlen' (e_up e)) = true ->
+  within o_cl (e_cl e) (e_cl_lo e) (e_cl_hi e) = true ->
+  spec_b KWs false [] (concat segs) cwait ce ut reply ue o_up o_cl = true.
+Proof. exact ws_early_scenario_meets_spec. Qed.
+Print Assumptions C09_ws_early_scenario_meets_spec.
+
+(* Non-vacuity, with the observation the specification rejects: the first 1024 of 3000 early
+   bytes followed by the late ones. *)
+Theorem C09_ws_early_scenario_nonvacuous :
+  exists e, scenario_expect_ws_early wit_ws_req 7 [symseq 0 3000; [1; 2]%N] 1 true 0 true false CHalf UOnEOF (wit_reply ++ [7; 8]%N) 0 (nlen' wit_reply) UClose = Ok e /\
+    e_conn e = true /\ e_up e = symseq 0 3000 ++ [1; 2]%N /\ e_up_lo e = 3002%N /\ e_cl_lo e = nlen' (wit_reply ++ [7; 8]%N) /\
+    region_upstream_half_close (concat [symseq 0 3000; [1; 2]%N]) true UOnEOF UClose = false /\
+    spec_b KWs false [] (concat [symseq 0 3000; [1; 2]%N]) false CHalf UOnEOF (wit_reply ++ [7; 8]%N) UClose
+      (symseq 0 3000 ++ [1; 2]%N) (wit_reply ++ [7; 8]%N) = true /\
+    spec_b KWs false [] (concat [symseq 0 3000; [1; 2]%N]) false CHalf UOnEOF (wit_reply ++ [7; 8]%N) UClose
+      (symseq 0 1024 ++ [1; 2]%N) (wit_reply ++ [7; 8]%N) = false.
+Proof. exact ws_early_scenario_nonvacuous. Qed.
+Print Assumptions C09_ws_early_scenario_nonvacuous.
